@@ -301,15 +301,23 @@ def run(ctx) -> None:
         nfull += 1
         fs = [e.extra.get("func") for e in p.evs if e.kind == "call"]
         has_deb = c.get("self.event_debouncer is None") is False
-        has_w = any(a in ("process_watcher' is None", "process_watcher is None") and not t for a, t in c.items()) or (c.get("self.process_watcher is None") is False and not any(e.kind == "inline" for e in p.evs))
+        # a watcher exists on this path if the first test of the field (stop()'s own or the inlined _stop_process's) says so
+        wconds = [e for e in p.evs if e.kind == "cond" and e.text in ("self.process_watcher is None", "self.process_watcher is not None")]
+        has_w = bool(wconds) and ((wconds[0].text.endswith("is None") and wconds[0].extra.get("truth") is False) or (wconds[0].text.endswith("is not None") and wconds[0].extra.get("truth") is True))
         if has_deb and ("self.event_debouncer.stop" not in fs or "self.event_debouncer.join" not in fs):
             oks, msgs = False, "the debouncer thread is not stopped and joined"
         if has_deb and "self.event_debouncer.stop" in fs and "self.event_debouncer.join" in fs and fs.index("self.event_debouncer.stop") > fs.index("self.event_debouncer.join"):
             oks, msgs = False, "the debouncer is joined before it is stopped"
         if not any(e.kind == "inline" and e.text.endswith("._stop_process") for e in p.evs):
             oks, msgs = False, "the child process is not stopped"
-        if has_w and not any(f in fs for f in ("process_watcher.join", "self.process_watcher.join", "process_watcher'.join")):
-            oks, msgs = False, "the process watcher thread is not joined"
+        wlocals = {e.extra.get("name") for e in p.evs if e.kind == "assign" and re.fullmatch(r"\w+ = self\.process_watcher", e.text)}
+        if wlocals:
+            # stop() works on a snapshot of the field taken before the child is stopped: the snapshot decides
+            lc = [e for e in p.evs if e.kind == "cond" and re.fullmatch(r"(\w+)'? is (not )?None", e.text) and e.text.split("'")[0].split(" ")[0] in wlocals]
+            has_w = bool(lc) and ((lc[0].text.endswith("is None") and not lc[0].text.endswith("is not None") and lc[0].extra.get("truth") is False) or (lc[0].text.endswith("is not None") and lc[0].extra.get("truth") is True))
+        joined = any(f == "self.process_watcher.join" or any(f in (f"{n}.join", f"{n}'.join") for n in wlocals) for f in fs if f) or any(e.kind == "call" and any((e.raw or "").startswith(f"{n}.join(") for n in wlocals) for e in p.evs)
+        if has_w and not joined:
+            oks, msgs = False, "the process watcher thread is not joined although one exists on this path"
     ctx.check(oks and nfull > 0, RS, "AutoRestartTrick.stop", msgs, A.methods["stop"].loc)
     # _stop_process stops the watcher and clears process
     okp = True
@@ -400,6 +408,8 @@ DB = "utils/event_debouncer.py"
 TR = "tricks/__init__.py"
 PW = "utils/process_watcher.py"
 VARIANTS = [
+    dict(name="B stop() does not join the process watcher", expect="fire", rule="C18/stop-must-effects", edits=[("tricks/__init__.py", "        if process_watcher is not None:\n            process_watcher.join()\n", "        if process_watcher is not None:\n            pass\n")]),
+    dict(name="B stop() joins the watcher only when there is none", expect="fire", rule="C18/", edits=[("tricks/__init__.py", "        if process_watcher is not None:\n            process_watcher.join()\n", "        if process_watcher is None:\n            process_watcher.join()\n")]),
     dict(name="B watcher polls with the wrong polarity", expect="fire", rule="C18/watcher-reports-exactly-the-exit", edits=[("utils/process_watcher.py", "while self.popen_obj.poll() is None:", "while self.popen_obj.poll() is not None:")]),
     dict(name="B watcher gives up at the first poll interval", expect="fire", rule="C18/watcher-reports-exactly-the-exit", edits=[("utils/process_watcher.py", "if self.stopped_event.wait(timeout=0.1):", "if not self.stopped_event.wait(timeout=0.1):")]),
     dict(name="E watcher polls in break form", expect="silent", edits=[("utils/process_watcher.py", "        while self.popen_obj.poll() is None:\n            if self.stopped_event.wait(timeout=0.1):\n                return\n", "        while True:\n            if self.popen_obj.poll() is not None:\n                break\n            if self.stopped_event.wait(timeout=0.1):\n                return\n")]),
